@@ -105,7 +105,24 @@ def gen(rng, knobs):
         clients = [{"script": [["send", json.dumps(["REQ", "big", {"kinds": [1]}])]], "slow": rng.random() < 0.8},
                    {"script": writes, "slow": False}]
         limit = 4
-    crowd = rng.random() < 0.02
+    message_timeout = 1800
+    quiet = rng.random() < 0.08
+    if quiet:
+        # a peer that is quiet for almost the idle time-out (legally still connected) and then asks for something
+        # sizeable; sometimes it had asked for something before, sometimes this is its first frame
+        message_timeout = rng.choice([5, 30, 1800])
+        pre = [h.regular(kind=1) for _ in range(rng.randint(10, 60))]
+        gap = message_timeout - rng.choice([0.05, 0.3, 0.9, 0.9, 2.0])
+        script = [["wait", gap], ["send", json.dumps(["REQ", "late", {"kinds": [1]}])]]
+        if rng.random() < 0.5:
+            script.insert(0, ["send", json.dumps(["REQ", "first", {"kinds": [1], "limit": 2}])])
+        if rng.random() < 0.4:
+            script += [["wait", rng.choice([0.5, 0.9]) * message_timeout], ["send", json.dumps(["REQ", "later", {"kinds": [1], "limit": 3}])]]
+        clients = [{"script": script, "slow": rng.random() < 0.5}]
+        if rng.random() < 0.4:
+            clients.append({"script": [["send", json.dumps(["EVENT", h.regular(kind=1)])]], "slow": False})
+        limit = 4
+    crowd = not quiet and rng.random() < 0.02
     if crowd:
         # a long process lifetime: a crowd of connections, then some of them go on: CLOSE, REQ again, leave
         pre = [h.regular(kind=1) for _ in range(2)]
@@ -117,11 +134,11 @@ def gen(rng, knobs):
                 cl["script"].append(["disconnect"])
         limit = 4
     return {"backend": backend, "clients": clients, "preload": pre, "subscription_limit": limit,
-            **({"step_cap": 600000} if crowd else {}),
+            **({"step_cap": 600000} if crowd else {}), "message_timeout": message_timeout,
             "p_buffered": rng.choice([0.0, 0.0, 0.3, 0.8]),
-            "faults": sorted(rng.sample(range(3, 90), rng.choice([1, 2]))) if (backend == "sql" and rng.random() < 0.2) else [],
+            "faults": sorted(rng.sample(range(3, 90), rng.choice([1, 2]))) if (backend == "sql" and rng.random() < 0.2 and not quiet) else [],
             "storage_opts": histgen.pool_knob(rng, backend),
-            "sched": {**histgen.stall_knob(rng), "client": rng.choice([0.5, 1.0, 3.0]), "sql": rng.choice([0.3, 1.0, 3.0]),
+            "sched": {**histgen.stall_knob(rng, 0.6 if quiet else 0.15), "timer_near": rng.choice([0.3, 1.0, 3.0]), "client": rng.choice([0.5, 1.0, 3.0]), "sql": rng.choice([0.3, 1.0, 3.0]),
                       "pool": rng.choice([0.3, 1.0, 3.0]), "writer": rng.choice([0.2, 1.0, 3.0]),
                       "wsend": rng.choice([0.2, 1.0]), "ready": rng.choice([1.0, 4.0, 8.0])}}
 
@@ -190,6 +207,19 @@ def check_client(c, world, case, ev_times, ev_done, submissions, quiet_points, v
         return [s for s in notices if fr["t_deliver"] <= s <= hi]
 
     alive_at_quiet = world.final.get("alive", {}).get(c.idx, False)
+    # a connection the RELAY hung up on while the peer was still there, although the peer had not been quiet for
+    # the idle time-out (and no engine fault was injected): nothing excuses what it leaves unanswered - for the
+    # silence clause the connection counts as one that stayed
+    t_close = min((s for s, t in c.transcript if t.startswith("__CLOSE__")), default=None)
+    if (not alive_at_quiet and t_close is not None and t_close < getattr(c, "t_disconnect", 10 ** 12)
+            and not case.get("faults")):
+        # (quiet since the last frame the handler demonstrably took up - it came back for the next one; a frame
+        #  that reached the socket just before the deadline may lose the race against the time-out and is not counted)
+        seen = [f["mono_deliver"] for f in frames if f["t_done"] is not None] + [getattr(c, "first_recv_mono", 0.0)]
+        idle = getattr(c, "closed_mono", 0.0) - max(seen)
+        if idle < case.get("message_timeout", 1800) - 1.0:
+            probes["relay_hung_up_early"] += 1
+            alive_at_quiet = True
     in_flight = 1 if getattr(c, "slow", False) else 0
     for sid, frs in by_id.items():
         req_frs = [f for f in frs if f["msg"][0] == "REQ"]
@@ -411,7 +441,7 @@ def check_client(c, world, case, ev_times, ev_done, submissions, quiet_points, v
 def run(case, sim):
     backend = case["backend"]
     w = relay.RelayWorld(sim, backend, case["clients"], cfg={"subscription_limit": case["subscription_limit"]},
-                         storage_opts=case.get("storage_opts"),
+                         storage_opts=case.get("storage_opts"), message_timeout=case.get("message_timeout", 1800),
                          preload=case.get("preload"), p_buffered=case.get("p_buffered", 0.0))
     viol = []
     probes = collections.Counter()
